@@ -1,2 +1,144 @@
-(* Props/C13.v — property C13 (placeholder while the proofs are being written). *)
+(* Props/C13.v — property C13: merge_typesystems follows the UIMA merge rules, is order-independent and pure.
+   Only the property theorems (closed by `exact`), Print Assumptions and non-vacuity examples.
+   Model: Merge.v (cassis/typesystem.py merge_typesystems at 13b42b8) on top of TS.v.  `merge inputs` is the functional
+   form; the mechanism form (recursion into _children as written) is evaluated next to it on every correspondence case.
+
+   Vocabulary.  all_WFh inputs: every input satisfies the hierarchy invariant WFh of C10 (boolean twin wfhb; for inputs
+   built by histories of create_type / create_feature it is C10_reachable_WF).  type_list inputs: the concatenated
+   declarations (get_types() of every input: the user types and DocumentAnnotation), a declaration d has a name (dname d),
+   a declared supertype (t_super (d_ty d)) and own features (t_own (d_ty d)).  below ts a d: a is d or an ancestor of d.
+   has_feat ts x f: the type named x owns or inherits a feature that Feature.__eq__ identifies with f (name, range,
+   element type with None = TOP, description; NOT the multipleReferencesAllowed flag: the property excludes it). *)
 From Cassis Require Import Base TS TSProofs Merge MergeProofs.
+
+(* ---- the result is a consistent type system: it satisfies the invariant WF = WFh /\ WFf of C10 / C11.  WFh: one tree
+        rooted at TOP, children = inverse of supertype, every feature reference registered, own features carry their type
+        as domain.  WFf: the inherited features of every type are the own features of its FINAL proper ancestors (sound, and
+        complete up to Feature.__eq__), no type sees two definitions of one feature name, the lazily built constructor
+        captures exactly the effective feature names.  Hence every query specification of Props/C10.v and Props/C11.v
+        applies to the result.  (The inputs need the hierarchy invariant only.) ---- *)
+Theorem C13_merge_WF : forall inputs ts, all_WFh inputs -> merge inputs = Ok ts -> WF ts.
+Proof. exact merge_WF. Qed.
+Print Assumptions C13_merge_WF.
+
+(* ---- termination: the fuel of the readiness loop (number of declarations + 1 rounds) is never exhausted and no
+        hierarchy query inside the loop runs out of its rank fuel ---- *)
+Theorem C13_merge_terminates : forall inputs, all_WFh inputs -> merge inputs <> OutOfFuel.
+Proof. exact merge_terminates. Qed.
+Print Assumptions C13_merge_terminates.
+
+(* ---- the only exception is ValueError ---- *)
+Theorem C13_merge_error_is_value : forall inputs e, all_WFh inputs -> merge inputs = Err e -> e = EValue.
+Proof. exact merge_error_is_value. Qed.
+Print Assumptions C13_merge_error_is_value.
+
+(* ---- contains every type and every own feature declared in any input ---- *)
+Theorem C13_merge_contains_all_types : forall inputs ts, all_WFh inputs -> merge inputs = Ok ts ->
+  forall ti t, In ti inputs -> In t ti -> registered ts (t_name t) = true.
+Proof. exact merge_contains_all_types. Qed.
+Print Assumptions C13_merge_contains_all_types.
+
+Theorem C13_merge_contains_all_features : forall inputs ts, all_WFh inputs -> merge inputs = Ok ts ->
+  forall d f, In d (type_list inputs) -> In f (t_own (d_ty d)) -> has_feat ts (dname d) f.
+Proof. exact merge_contains_all_features. Qed.
+Print Assumptions C13_merge_contains_all_features.
+
+(* ---- a type declared with different supertypes gets one of the declared ones (or keeps the built-in one), and every
+        supertype declared for it subsumes that one: the most specific ---- *)
+Theorem C13_merge_supertype_most_specific : forall inputs ts, all_WFh inputs -> merge inputs = Ok ts ->
+  forall d, In d (type_list inputs) ->
+  exists t s, find_ty ts (dname d) = Some t /\ t_super t = Some s /\
+    (forall d' sup', In d' (type_list inputs) -> dname d' = dname d -> t_super (d_ty d') = Some sup' -> below ts sup' s) /\
+    ((exists d', In d' (type_list inputs) /\ dname d' = dname d /\ t_super (d_ty d') = Some s) \/
+     (exists t0, find_ty init_ts (dname d) = Some t0 /\ t_super t0 = Some s)).
+Proof. exact merge_supertype_most_specific. Qed.
+Print Assumptions C13_merge_supertype_most_specific.
+
+(* ---- conflicts raise ValueError.  Incomparable: neither declared supertype is above the other in the union of all
+        declared supertype edges (dreach).  Contradictory: two types declared below each other. ---- *)
+Theorem C13_merge_conflict_raises_incomparable : forall inputs d1 d2 s1 s2, all_WFh inputs ->
+  In d1 (type_list inputs) -> In d2 (type_list inputs) -> dname d1 = dname d2 ->
+  t_super (d_ty d1) = Some s1 -> t_super (d_ty d2) = Some s2 ->
+  ~ dreach (type_list inputs) s1 s2 -> ~ dreach (type_list inputs) s2 s1 -> merge inputs = Err EValue.
+Proof. exact merge_conflict_raises_incomparable. Qed.
+Print Assumptions C13_merge_conflict_raises_incomparable.
+
+Theorem C13_merge_conflict_raises_contradictory : forall inputs d1 d2, all_WFh inputs ->
+  In d1 (type_list inputs) -> In d2 (type_list inputs) ->
+  t_super (d_ty d1) = Some (dname d2) -> t_super (d_ty d2) = Some (dname d1) -> merge inputs = Err EValue.
+Proof. exact merge_conflict_raises_contradictory. Qed.
+Print Assumptions C13_merge_conflict_raises_contradictory.
+
+(* two declarations of one feature name whose types end up on one inheritance chain (d1's type below or equal to d2's in
+   whatever the merge would produce) and that differ in range or in element type (None = TOP): ValueError *)
+Theorem C13_merge_conflict_raises_features : forall inputs d1 d2 f1 f2, all_WFh inputs ->
+  In d1 (type_list inputs) -> In d2 (type_list inputs) -> In f1 (t_own (d_ty d1)) -> In f2 (t_own (d_ty d2)) ->
+  f_name f1 = f_name f2 -> (f_range f1 <> f_range f2 \/ elem_name f1 <> elem_name f2) ->
+  (forall ts, merge inputs = Ok ts -> below ts (dname d2) (dname d1)) -> merge inputs = Err EValue.
+Proof. exact merge_conflict_raises_features. Qed.
+Print Assumptions C13_merge_conflict_raises_features.
+
+(* the same, read the other way: when a merge succeeds, declarations of one feature name on one chain agree (Feature.__eq__) *)
+Theorem C13_merge_ok_features_agree : forall inputs ts d1 d2 f1 f2, all_WFh inputs -> merge inputs = Ok ts ->
+  In d1 (type_list inputs) -> In d2 (type_list inputs) -> In f1 (t_own (d_ty d1)) -> In f2 (t_own (d_ty d2)) ->
+  f_name f1 = f_name f2 -> below ts (dname d2) (dname d1) -> feat_eqb f1 f2 = true.
+Proof. exact merge_ok_features_agree. Qed.
+Print Assumptions C13_merge_ok_features_agree.
+
+(* whenever a merge succeeds, any two supertypes declared for one type are comparable in the result *)
+Theorem C13_merge_ok_supertypes_comparable : forall inputs ts d1 d2 s1 s2, all_WFh inputs -> merge inputs = Ok ts ->
+  In d1 (type_list inputs) -> In d2 (type_list inputs) -> dname d1 = dname d2 ->
+  t_super (d_ty d1) = Some s1 -> t_super (d_ty d2) = Some s2 -> below ts s1 s2 \/ below ts s2 s1.
+Proof. exact merge_ok_supertypes_comparable. Qed.
+Print Assumptions C13_merge_ok_supertypes_comparable.
+
+(* ---- no object of an input is referenced from the result: after the fix-up loop every domain / range / element
+        reference of every stored feature copy is owned by the merged type system (ghost owner tags, see Merge.v) ---- *)
+Theorem C13_merge_no_foreign_refs : forall inputs st, all_WFh inputs -> merge_with fn_form inputs = Ok st -> foreign_refs st = 0.
+Proof. exact merge_no_foreign_refs. Qed.
+Print Assumptions C13_merge_no_foreign_refs.
+
+(* ---- merge_inputs_unchanged: `merge` is a function of immutable values, so the statement is trivial in the model; that
+        merge_typesystems does not modify its arguments (dumps and the identities of the domainType / rangeType /
+        elementType references of all their Feature objects, before and after) is carried by the correspondence harness
+        on every case (field c_pure) and by the oracle. ---- *)
+
+(* ---- NOT PROVED (kept as the goals; explored by the correspondence, which checks wfb - hierarchy AND features - of the
+        model's result on every case, and by the oracle on the implementation):
+
+   C13_merge_agreeing_features_ok:
+     if all declarations of every feature name agree (with each other and with the built-in features), no feature step of
+     the merge raises: merge inputs = Err e  ->  the merge of the same inputs with all features erased raises as well.
+     (Needs a lock-step simulation of the two runs; the checks that can raise are exactly the three feat_eqb tests of
+     _add_feature and the one of create_type's inheritance loop.)
+   C13_merge_idempotent:      WF t -> exists r, merge [t; t] = Ok r /\ ts_equiv r t = true
+   C13_merge_empty_neutral:   WF t -> exists r, merge [t; init_ts] = Ok r /\ ts_equiv r t = true
+   C13_merge_order_independent (FULL statement, with the property's side condition):
+     forall inputs inputs', Permutation inputs inputs' ->
+       (forall d1 d2, In d1 (type_list inputs) -> In d2 (type_list inputs) -> dname d1 = dname d2 ->
+          t_super (d_ty d1) <> t_super (d_ty d2) ->
+          forall s, (t_super (d_ty d1) = Some s \/ t_super (d_ty d2) = Some s) ->
+          forall a e1 e2, dreach (type_list inputs) a s -> In e1 (type_list inputs) -> In e2 (type_list inputs) ->
+             dname e1 = a -> dname e2 = a -> t_super (d_ty e1) = t_super (d_ty e2)) ->
+       match merge inputs, merge inputs' with
+       | Ok a, Ok b => ts_equiv a b = true | Err _, Err _ => True | _, _ => False end
+     and the same for regroupings merge [merge [a; b]; c] / merge [a; b; c].
+   What is proved of it: the supertype half.  By C13_merge_supertype_most_specific and C13_merge_contains_all_types the
+   types of the result and the supertype of each are determined by the SET of declarations whenever both orders succeed
+   (the most specific declared supertype is unique in a tree), and by C13_merge_conflict_raises_* the failures caused by
+   supertypes do not depend on the order either. ---- *)
+
+(* ================================================================================================ non-vacuity *)
+Definition ex_a : tsys := final_ts [CT "a.A" ANNOTATION; CT "a.B" "a.A"; CT "a.X" "a.A"; CF "a.B" "f" "uima.cas.String" None] init_ts.
+Definition ex_b : tsys := final_ts [CT "a.A" ANNOTATION; CT "a.B" "a.A"; CT "a.X" "a.B"] init_ts.
+(* the premises hold of non-trivial inputs, the merge succeeds and re-parents a.X below a.B *)
+Example C13_premises_nonvacuous :
+  wfhb ex_a = true /\ wfhb ex_b = true /\
+  exists ts, merge [ex_a; ex_b] = Ok ts /\ wfb ts = true /\
+             (match find_ty ts "a.X" with Some t => t_super t | None => None end) = Some "a.B".
+Proof. split; [vm_compute; reflexivity|]. split; [vm_compute; reflexivity|]. eexists. vm_compute. repeat split. Qed.
+(* a conflict: incomparable supertypes *)
+Example C13_conflict_nonvacuous :
+  merge [final_ts [CT "a.A" ANNOTATION; CT "a.B" ANNOTATION; CT "a.X" "a.A"] init_ts;
+         final_ts [CT "a.A" ANNOTATION; CT "a.B" ANNOTATION; CT "a.X" "a.B"] init_ts] = Err EValue.
+Proof. vm_compute. reflexivity. Qed.
